@@ -105,7 +105,12 @@ impl BuildSystem {
 
         reporter.start_step("Managing output");
         let mut output_manager = OutputManager::new(&config.output_path);
-        output_manager.finalize_generation(&generated_files)?;
+        if let Err(e) = output_manager.finalize_generation(&generated_files) {
+            // The run is reported as failed, so it must not stay recorded as up to date:
+            // drop the cache record written by the generation step.
+            let _ = GenerationCache::invalidate(&config.output_path);
+            return Err(e.into());
+        }
         reporter.complete_step(None);
 
         reporter.finish(&format!(
